@@ -525,6 +525,19 @@ def pair_rule(A, R, rule):
                     n += 1
                     R.ob(rule, "new_history | %s, output %s | output record and input-list record are %sed together" % (
                         A.sname(s), "present" if ho else "absent", op), cls == {"job", "suffix"}, detail="only %s" % sorted(cls))
+                    if op == "insert" and ho:
+                        # ... and not only on some paths: a job that ends with an output has both records (re)written whatever
+                        # else is known about it (a record 'known to be current' may have been dropped by the initial filter)
+                        for c_ in ("job", "suffix"):
+                            mine = [v for v in ops if v["op"] == "insert" and classify_key(v["key"])[0] == c_]
+                            okm, whym = False, "no insert"
+                            for v in mine:
+                                okm, whym = must_in_iteration(A, run, v)
+                                if okm:
+                                    break
+                            R.ob(rule, "new_history | %s, output present | the %s record is written on every path" % (
+                                A.sname(s), "output" if c_ == "job" else "input-list"), okm, detail=whym,
+                                site=A.site(mine[0]) if mine else "")
     R.floor(rule, "paired own-record operations", n, 10)
 
 
@@ -698,6 +711,8 @@ def check_C11(A, R, tier):
     # R11.3: a validly skipped job (never started, finished without failure) keeps its own records, with or without an
     # attached output (a leaf Ephemeral pruned at startup has none)
     rule_never_started_kept(A, R, "R11.3", which="skipped")
+    # R11.5 (= R8.4): both own records of a job that ends with an output are written on every path
+    pair_rule(A, R, "R11.5")
     R.explanation = ("Value provenance (A4) at every insertion of new_history: the output record of K holds K's history_output (or its old "
                      "record), the input-list record holds the strategy's current list for K, a per-dependency record (A,B) holds A's "
                      "current output when there is one and otherwise the record A was validated against; the reported string reaches "
@@ -763,6 +778,8 @@ def check_C12(A, R, tier):
     rule_no_textual_record_compare(A, R, "R12.c")
     from rules_compare import rule_comparison_pair
     rule_comparison_pair(A, R, "R12.c")      # ... and the comparison is asked about the pair whose records it is given (= R15.4)
+    # R12.w (= R8.4): a job that ends with an output has both own records written on every path
+    pair_rule(A, R, "R12.w")
     rule_no_bulk_removal(A, R, "R12.k")
     # R12.s: 'is the output there?' is asked per job id (a multi-output job asked piece by piece is never 'there': rebuilt every time)
     from rules_compare import rule_strategy_asked_by_job_id
